@@ -790,11 +790,17 @@ static uint32_t read_universal_char(char *p, int len) {
   return c;
 }
 
-// Replace \u or \U escape sequences with corresponding UTF-8 bytes.
-static void convert_universal_chars(char *p) {
+// Replaces \u and \U escape sequences with UTF-8. This runs after
+// line splicing (a universal character name may be spliced), so the
+// recorded splice positions are moved along as the text shrinks.
+static void convert_universal_chars(char *p, int *splices) {
+  char *base = p;
   char *q = p;
 
   while (*p) {
+    while (*splices >= 0 && *splices <= p - base)
+      *splices++ = q - base;
+
     if (startswith(p, "\\u")) {
       uint32_t c = read_universal_char(p + 2, 4);
       if (c) {
@@ -819,6 +825,8 @@ static void convert_universal_chars(char *p) {
     }
   }
 
+  while (*splices >= 0)
+    *splices++ = q - base;
   *q = '\0';
 }
 
@@ -835,8 +843,8 @@ Token *tokenize_file(char *path) {
     p += 3;
 
   canonicalize_newline(p);
-  convert_universal_chars(p);
   int *splices = remove_backslash_newline(p);
+  convert_universal_chars(p, splices);
 
   // Save the filename for assembler .file directive.
   static int file_no;
